@@ -47,19 +47,19 @@ Proof.
 Qed.
 
 Lemma spec_nodes_content port rrs nd : In nd (spec_nodes port rrs) <->
-  exists r, In r rrs /\ is_in r = true /\ n_port nd = port /\ n_ttl nd = to_int (rr_ttl r) /\
+  exists r, In r rrs /\ is_in r = true /\ n_port nd = port /\ n_ttl nd = ttl_to_int (rr_ttl r) /\
             ((rr_data r = RD_A (n_addr nd) /\ n_family nd = LEG_AF_INET) \/
              (rr_data r = RD_AAAA (n_addr nd) /\ n_family nd = LEG_AF_INET6)).
 Proof.
   unfold spec_nodes. induction rrs as [|r rest IH]; cbn [filter_map In].
   - split; [contradiction | intros (r & [] & _)].
   - assert (Hn : forall x, node_of port r = Some x ->
-                 is_in r = true /\ n_port x = port /\ n_ttl x = to_int (rr_ttl r) /\
+                 is_in r = true /\ n_port x = port /\ n_ttl x = ttl_to_int (rr_ttl r) /\
                  ((rr_data r = RD_A (n_addr x) /\ n_family x = LEG_AF_INET) \/
                   (rr_data r = RD_AAAA (n_addr x) /\ n_family x = LEG_AF_INET6))).
     { unfold node_of. destruct (is_in r); [|discriminate]. destruct (rr_data r); try discriminate;
         intros x [= <-]; cbn; auto 10. }
-    assert (Hc : forall x, is_in r = true -> n_port x = port -> n_ttl x = to_int (rr_ttl r) ->
+    assert (Hc : forall x, is_in r = true -> n_port x = port -> n_ttl x = ttl_to_int (rr_ttl r) ->
                  ((rr_data r = RD_A (n_addr x) /\ n_family x = LEG_AF_INET) \/
                   (rr_data r = RD_AAAA (n_addr x) /\ n_family x = LEG_AF_INET6)) -> node_of port r = Some x).
     { intros [f a p t] Hi Hp Ht Hd. cbn in *. unfold node_of. rewrite Hi.
@@ -521,7 +521,7 @@ Proof.
     by (destruct Hf as [-> | [-> | ->]]; reflexivity).
   rewrite Hv. f_equal. f_equal.
   rewrite !ai_has_family_existsb.
-  change (to_int 0) with 0.
+  change (ttl_to_int 0) with 0.
   set (w6 := (family =? LEG_AF_UNSPEC) || (family =? LEG_AF_INET6)).
   set (w4 := (family =? LEG_AF_UNSPEC) || (family =? LEG_AF_INET)).
   destruct (w6 && negb (existsb (fun nd => n_family nd =? LEG_AF_INET6) (ai_nodes ai))).
